@@ -1,6 +1,6 @@
 (* C02 -- MathML -> SymPy transpilation preserves meaning for every supported operator.
    Statements only; proofs are in Proofs/C02P.v.
-     tr         Model/Transpile.v   what parser.Transpiler does with one element (faithful, including F13)
+     tr         Model/Transpile.v   what parser.Transpiler does with one element (faithful; parse_one = parse_tree for one child of <math>)
      msem       Sem/MathML.v        the value MathML 2 assigns to a content tree
      eval       Sem/Eval.v          the value of a SymPy-shaped expression; psem := pow_sem, the function symbols
                                     fsem, the constants csem, the identifiers vsem and the derivative atoms dsem are
@@ -10,9 +10,9 @@
    plus, times, max, min, minus (both arities), divide, power, rem, root/degree, log/logbase, ln, exp, abs, floor,
    ceiling, the 24 trigonometric / hyperbolic functions and inverses (generically, through the generated table),
    eq/lt/leq/gt/geq n-ary and chained, neq, and/or/xor/not, piecewise/piece/otherwise, diff with bvar (first order).
+   Numbers: [sign] digits [. digits] [e|E [sign] digits] in a plain <cn>, decimal<sep/>integer in e-notation.
    Excluded (the specification gives no value, so the theorem says nothing): derivatives of order > 1 or of a compound
-   expression, n-ary operators without operands, numbers outside [sign] digits [. digits] (exponent spellings),
-   the rounding of a decimal to the nearest double (the model keeps the exact decimal). *)
+   expression, the rounding of a decimal to the nearest double (the model keeps the exact decimal). *)
 From Coq Require Import List ZArith QArith Reals Qreals String.
 From Verif Require Import Sexp UnitAlg UStore Expr Eval TranspileTables_gen Transpile MathML C02P.
 Import ListNotations.
@@ -41,53 +41,106 @@ Theorem C02_relation_chain : forall fsem csem qsem vsem dsem tag ty text tail ot
 Proof. exact relation_chain. Qed.
 Print Assumptions C02_relation_chain.
 
+(* the generated MATHML_CONTAINERS is exactly the set of elements that may have child elements *)
+Theorem C02_containers_match_spec : forall tag,
+  name_in tag container_tags = match role tag with Some r => may_have_children r | None => false end.
+Proof. exact containers_match_spec. Qed.
+Print Assumptions C02_containers_match_spec.
+
 (* Error clause.  Full statement: every tree to which MathML assigns no meaning (unsupported element, wrong number
-   of operands or children, misplaced qualifier, malformed number) is refused.  It is FALSE of the faithful model and
-   of the code (DESIGN section 6, F13; KNOWN_FINDINGS.txt).  Proved: the parts below; refuted: the witnesses. *)
-Theorem C02_rejects_partial_unknown_element : forall tag ty text tail ch,
+   of operands or children, misplaced qualifier, malformed number) is refused.  After the repairs of the findings
+   operator-only-apply, ln-two-operands, cn-python-only-spelling, diff-degree-not-positive-integer and
+   ignored-children (fix: commits in /repo) what remains FALSE of the model and of the code is the finding
+   qualifier-misuse: a degree / logbase / bvar outside its place is taken as an ordinary operand, a third operand of
+   diff is taken as the "evaluate" flag (KNOWN_FINDINGS.txt).  Proved: the theorems C02_rejects_* below (the ones
+   named _partial carry a guard for that finding); refuted: the four witnesses at the end. *)
+Theorem C02_rejects_unknown_element : forall tag ty text tail ch,
   role tag = None -> tr (MElem tag ty text tail ch) = TErr EValue.
 Proof. exact rejects_unknown. Qed.
-Print Assumptions C02_rejects_partial_unknown_element.
+Print Assumptions C02_rejects_unknown_element.
 
-Theorem C02_rejects_partial_unknown_child : forall tag ty text tail ch r c,
+Theorem C02_rejects_unknown_child : forall tag ty text tail ch r c,
   role tag = Some r -> is_container r = true -> In c ch -> role (mtag c) = None ->
   exists e, tr (MElem tag ty text tail ch) = TErr e.
 Proof. exact rejects_unknown_child. Qed.
-Print Assumptions C02_rejects_partial_unknown_child.
+Print Assumptions C02_rejects_unknown_child.
 
-(* piece: exactly 2 children; otherwise, degree: exactly 1; bvar: 1 or 2; logbase, apply, piecewise: at least 1
-   (guard: <logbase> with more than one child is accepted) *)
+(* piece: exactly 2 children; otherwise, degree: exactly 1; bvar: 1 or 2; apply, piecewise: at least 1;
+   logbase: at least 1 (guard: <logbase> with more than one child is accepted -- qualifier-misuse) *)
 Theorem C02_rejects_partial_child_count : forall tag ty text tail ch r,
   role tag = Some r -> count_ok r (length ch) = false -> exists e, tr (MElem tag ty text tail ch) = TErr e.
 Proof. exact rejects_count. Qed.
 Print Assumptions C02_rejects_partial_child_count.
 
-Theorem C02_rejects_partial_cn_type : forall tag text tail ch ty,
+(* token, operator and constant elements with child elements; a plain <cn> with child elements *)
+Theorem C02_rejects_leaf_with_children : forall tag ty text tail ch r,
+  role tag = Some r -> may_have_children r = false -> ch <> [] -> tr (MElem tag ty text tail ch) = TErr EValue.
+Proof. exact rejects_leaf_children. Qed.
+Print Assumptions C02_rejects_leaf_with_children.
+
+Theorem C02_rejects_cn_with_children : forall tag text tail ch,
+  role tag = Some RCn -> ch <> [] -> tr (MElem tag 0 text tail ch) = TErr EValue.
+Proof. exact rejects_cn_children. Qed.
+Print Assumptions C02_rejects_cn_with_children.
+
+Theorem C02_rejects_cn_type : forall tag text tail ch ty,
   role tag = Some RCn -> ty <> 0%Z -> ty <> 1%Z -> tr (MElem tag ty text tail ch) = TErr EValue.
 Proof. exact rejects_cn_type. Qed.
-Print Assumptions C02_rejects_partial_cn_type.
+Print Assumptions C02_rejects_cn_type.
 
-(* a wrong number of operands is refused -- guards: there is at least one operand (an operator-only apply returns
-   the operator), and the count is not one of the two holes arity_hole (ln with 2, diff with 3 operands) *)
+(* a number with any character outside [0-9.+-eE] (after stripping white space) is refused: 1_0, nan, inf,
+   Infinity, non-ASCII digits, ... -- for ALL strings *)
+Theorem C02_rejects_malformed_number : forall tag text tail,
+  role tag = Some RCn -> forallb number_char (strip text) = false -> tr (MElem tag 0 text tail []) = TErr EValue.
+Proof. exact rejects_malformed_number. Qed.
+Print Assumptions C02_rejects_malformed_number.
+
+(* a wrong number of operands is refused, an operator without operands included -- guard: arity_hole, the third
+   operand of diff (qualifier-misuse) *)
 Theorem C02_rejects_partial_arity : forall tag ty text tail otag oty otext otail och args k,
   role tag = Some RApply -> role otag = Some (ROp k) ->
-  args <> [] -> arity_ok k (length args) = false -> arity_hole k (length args) = false ->
+  arity_ok k (length args) = false -> arity_hole k (length args) = false ->
   exists e, tr (MElem tag ty text tail (MElem otag oty otext otail och :: args)) = TErr e.
 Proof. exact rejects_arity. Qed.
 Print Assumptions C02_rejects_partial_arity.
 
+Theorem C02_rejects_operator_only : forall tag ty text tail otag oty otext otail och k,
+  role tag = Some RApply -> role otag = Some (ROp k) ->
+  exists e, tr (MElem tag ty text tail [MElem otag oty otext otail och]) = TErr e.
+Proof. exact rejects_operator_only. Qed.
+Print Assumptions C02_rejects_operator_only.
+
+(* parse_tree returns SymPy objects only; an operator element directly under <math> is refused *)
+Theorem C02_parse_tree_returns_expressions : forall t v, parse_one t = TOk v -> is_basic v = true.
+Proof. exact parse_one_basic. Qed.
+Print Assumptions C02_parse_tree_returns_expressions.
+
+Theorem C02_rejects_toplevel_operator : forall tag ty text tail ch k,
+  role tag = Some (ROp k) -> exists e, parse_one (MElem tag ty text tail ch) = TErr e.
+Proof. exact rejects_toplevel_operator. Qed.
+Print Assumptions C02_rejects_toplevel_operator.
+
+(* the degree of a derivative must be a positive whole number *)
+Theorem C02_rejects_diff_degree : forall bv de y,
+  (forall n, int_of_expr de = Some n -> is_whole de n = false \/ (n < 1)%Z) ->
+  exists e, diff_call (TList [TE bv; TE de]) y = TErr e.
+Proof. exact rejects_diff_degree. Qed.
+Print Assumptions C02_rejects_diff_degree.
+
 Open Scope string_scope.
 
-Theorem C02_rejects_refuted_operator_only :
-  exists t, t = el "apply" [el "plus" []] /\ tr t = TOk (TOp KAdd) /\ no_value t.
-Proof. exact refuted_operator_only. Qed.
-Print Assumptions C02_rejects_refuted_operator_only.
-
-Theorem C02_rejects_refuted_ln_two_operands :
-  exists t, t = el "apply" [el "ln" []; ci_ "x"; ci_ "y"] /\
-            tr t = TOk (TE (b_log (EVar (encode (N "x"))) (EVar (encode (N "y"))))) /\ no_value t.
-Proof. exact refuted_ln_two_operands. Qed.
-Print Assumptions C02_rejects_refuted_ln_two_operands.
+(* the former witnesses of the repaired findings are refused *)
+Theorem C02_rejects_repaired_witnesses :
+  tr (el "apply" [el "plus" []]) = TErr EValue /\
+  parse_one (el "plus" []) = TErr EValue /\
+  tr (el "apply" [el "ln" []; ci_ "x"; ci_ "y"]) = TErr EType /\
+  tr (cn_ "1_0") = TErr EValue /\ tr (cn_ "nan") = TErr EValue /\ tr (cn_ "-Infinity") = TErr EValue /\
+  tr (el "apply" [el "diff" []; el "bvar" [ci_ "t"; el "degree" [cn_ "2.7"]]; ci_ "y"]) = TErr EValue /\
+  tr (el "apply" [el "diff" []; el "bvar" [ci_ "t"; el "degree" [cn_ "0"]]; ci_ "y"]) = TErr EValue /\
+  tr (MElem (N "ci") 0 (N "y") [] [ci_ "x"]) = TErr EValue /\
+  tr (el "apply" [el "plus" [el "foo" []]; ci_ "x"; ci_ "y"]) = TErr EValue.
+Proof. exact repaired_witnesses. Qed.
+Print Assumptions C02_rejects_repaired_witnesses.
 
 Theorem C02_rejects_refuted_misplaced_degree :
   exists t, t = el "apply" [el "root" []; ci_ "x"; el "degree" [cn_ "3"]] /\
@@ -100,21 +153,6 @@ Theorem C02_rejects_refuted_foreign_qualifier :
             tr t = TOk (TE (EAdd [ENum 2 (inject_Z 3); EVar (encode (N "x"))])) /\ no_value t.
 Proof. exact refuted_foreign_qualifier. Qed.
 Print Assumptions C02_rejects_refuted_foreign_qualifier.
-
-Theorem C02_rejects_refuted_cn_underscore :
-  exists t, t = cn_ "1_0" /\ tr t = TOk (TE (ENum 2 (inject_Z 10))) /\ no_value t.
-Proof. exact refuted_cn_underscore. Qed.
-Print Assumptions C02_rejects_refuted_cn_underscore.
-
-Theorem C02_rejects_refuted_cn_nan : exists t, t = cn_ "nan" /\ tr t = TOk (TE (EConst 4)) /\ no_value t.
-Proof. exact refuted_cn_nan. Qed.
-Print Assumptions C02_rejects_refuted_cn_nan.
-
-Theorem C02_rejects_refuted_diff_degree_truncated :
-  exists t, t = el "apply" [el "diff" []; el "bvar" [ci_ "t"; el "degree" [cn_ "2.7"]]; ci_ "y"] /\
-            tr t = TOk (TE (EDeriv (EVar (encode (N "y"))) (EVar (encode (N "t"))) 2)) /\ no_value t.
-Proof. exact refuted_diff_degree_truncated. Qed.
-Print Assumptions C02_rejects_refuted_diff_degree_truncated.
 
 Theorem C02_rejects_refuted_diff_without_bvar :
   exists t, t = el "apply" [el "diff" []; ci_ "t"; ci_ "y"] /\
